@@ -151,6 +151,8 @@ def check_cases(cases: list[dict], rep: Report, known: dict) -> None:
     if miss:
         rep.corr_break("step-level tie impossible: " + "; ".join(miss[:5]), {"missing": miss})
     tb = Batch()
+    fb = Batch()
+    finals = []
     work = []
     worst = (0.0, None)
     for c in cases:
@@ -238,6 +240,10 @@ def check_cases(cases: list[dict], rep: Report, known: dict) -> None:
                     rep.violation(f"the final form is not rule-free: on a fresh copy of it {log2.events[0]} still applies "
                                   f"({wire.size(cur)} nodes: {repr(cur)[:200]})", info)
                 rep.count("final-form-recheck", "rule-free" if not log2.events else "not-rule-free")
+                if not log2.events and wire.size(cur) <= 300:
+                    # ... and by the documented rules rather than the implementation's own verdict: the model's
+                    # rewriter (46 proved rules and constant folding) must find nothing to do on the final form
+                    finals.append((c, info, fb.ask(f"F0 trace 200 {wire.expr(cur)}"), repr(cur)[:300], wire.expr(cur)))
         # (a reused object occurring twice shares its flags between the occurrences; the tree model
         #  does not — those shapes are judged on the implementation alone)
         if steps <= 1000 and c.get("reuse") not in (3, 4):
@@ -259,6 +265,22 @@ def check_cases(cases: list[dict], rep: Report, known: dict) -> None:
         rep.evaluations += 1
         if wc.count:
             rep.violation(f"'Unable to fully reduce' warning for a {wire.size(e)}-node expression", c)
+    fb.run()
+    for c, info, i_f, shown, ftxt in finals:
+        k, rest = parse_answer(fb[i_f])
+        mk = int(rest[1])
+        mevs = [e_.split(":")[0] for e_ in rest[2:2 + mk]]
+        real = [e_ for e_ in mevs if e_ not in ("flag", "already")]
+        rep.count("final-form-by-the-model", "rule-free" if not real else "rule-applies")
+        if real:
+            vb = Batch()
+            ii = [vb.ask(f"F{j} trace 200 {ftxt}") for j in (1, 2, 3)]
+            vb.run()
+            if any(vb[i].split(" | ")[0] != fb[i_f].split(" | ")[0] for i in ii):
+                rep.skip("rounding-ambiguous")          # a fold decided by rounding
+                continue
+            rep.violation(f"the form the implementation stops at is not rule-free: the rule {real[0]} of the documented rule set "
+                          f"still applies to {shown}", dict(info, final=shown, model_events=mevs[:10]))
     tb.run()
     for c, info, evs, it in work:
         k, rest = parse_answer(tb[it])
